@@ -159,6 +159,11 @@ def gen_scenario(rng: random.Random, seed: int, cls: str) -> dict:
         sc["faults"] = dict(budget=rng.choice([10, 14, 20]), p=rng.choice([0.8, 1.0]), slow=0,
                             kinds=rng.choice([["error"], ["error", "drop_before"]]))
         sc["quiet"] = 6.0
+    if cls.endswith("cancel"):
+        # the application cancels some of the futures send() gave it (before or while their batch is in flight)
+        sc["cancel"] = [[f"r{ti}.{k}", rng.choice([0, 0, 0.001, 0.01])] for ti, t in enumerate(sc["tasks"]) for k in range(len(t))
+                        if rng.random() < 0.3]
+        sc["linger_ms"] = rng.choice([5, 20])
     if cls.endswith("noleader"):
         # a partition has no leader when its records are accepted; the leader appears later and NOTHING else
         # happens afterwards (no new batch, no other partition's traffic) -- the records must still get out
@@ -170,7 +175,7 @@ def gen_scenario(rng: random.Random, seed: int, cls: str) -> dict:
         sc["task_gap"] = [0] * len(sc["tasks"])
         sc["faults"] = dict(budget=0, p=0, slow=rng.choice([0, 0.005]), kinds=["error"])
         sc["env"] = []
-    if cls == "acks0":
+    if cls.startswith("acks0"):
         sc["idem"], sc["acks"] = False, 0
     if cls == "versions":
         sc["produce_max"] = rng.randrange(0, 8)
@@ -285,7 +290,17 @@ def conformance(rep: Report, ctx, pid: str, classes: dict[str, int], *, selftest
         prop, sig = c
         counts[sig] = counts.get(sig, 0) + 1
         if prop != pid:
-            continue          # reported by the other property's check
+            # reported by the other property's check.  But the trace was not examined beyond that point: C02's end
+            # clauses are read directly off the remaining events (same clauses as TQuiet / TReturn of the trace spec)
+            if pid == "C02":
+                late = next((e for e in tr[v["reached"]:] if (e["e"] == "Quiet" and e.get("pending")) or
+                             (e["e"] in ("FlushReturn", "StopReturn") and e.get("undone"))), None)
+                if late is not None:
+                    sig2 = f"C02:reject:{late['e']}:{'idem' if sc['idem'] else 'plain'}"
+                    counts[sig2] = counts.get(sig2, 0) + 1
+                    rep.violations.append(Violation(sig2, {"scenario": sc, "verdict": {k: v[k] for k in ("reached", "need", "bad")},
+                                                           "event": late, "first_rejection": sig}))
+            continue
         k = (v["bad_l"] - 2) if (v["bad_l"] and (v["accepted"] or v["bad_l"] <= v["reached"])) else v["reached"] - 1
         ev_at = tr[k] if 0 <= k < len(tr) else None
         rep.violations.append(Violation(sig, {"scenario": sc, "verdict": {k: v[k] for k in ("reached", "need", "bad")},
